@@ -77,3 +77,16 @@ Proof.
   split; [discriminate|]. repeat (split; [assumption|]). split; [intros rel X; discriminate X|]. split; assumption.
 Qed.
 Print Assumptions C11_written_paths_inside_outdir_refuted_before_b107faf.
+
+(* ---- before fix 5a15038 (F-SUPPORT-NS-PATH): the support namespace was not validated ------------------------------------------ *)
+(* the unvalidated code puts the support files of support_namespace "/esc" at /esc/<file>, outside the output directory; the
+   validating code refuses; a dotted identifier namespace gives outdir/n/s/<file>.  Fixed by 5a15038 (support namespace validation). *)
+Theorem C11_support_paths_inside_outdir_refuted_before_5a15038 :
+  exists sn f q, support_targets false w_out sn [f] = Some [q] /\ (forall rel, q <> w_out ++ rel) /\
+                 support_targets true w_out sn [f] = None /\
+                 support_targets true w_out [110; 46; 115] [f] = Some [w_out ++ [[110]; [115]; f]].
+Proof.
+  exists w_sn_abs, [102], [[47]; [101; 115; 99]; [102]]. destruct support_ns_witness as (A & B & C).
+  split; [exact A|]. split; [intros rel X; discriminate X|]. split; assumption.
+Qed.
+Print Assumptions C11_support_paths_inside_outdir_refuted_before_5a15038.
